@@ -61,7 +61,14 @@
 //! then uses the extension the files actually carry (label `compressed-files-without-compression-suffix`).
 //!
 //! Sensitivity probes (tools/mutrun, patches in crates/vf-list/probes/, quick tier):
-//! PROBE-VERDICTS-C25
+//! A. catalog-listing/helpers.rs `parse_partitions_for_path` returns the raw (not percent-decoded) value
+//!    (probes/c25c27-pA-no-percent-decoding.diff) → VIOLATION after 16 cases.
+//! B. datasource/write/orchestration.rs: the CSV "first batch" flag is never cleared (header written for every
+//!    batch) and C. datasource/write/demux.rs: `EPOCH_DAYS_FROM_CE` off by one (date partition directories one
+//!    day early) — both env-guarded in probes/combined-datasource-env-guarded.diff, run by probes/run-all.sh;
+//!    verdicts in probes/log-all.txt (the run was still queued behind the machine-wide mutrun slots when this
+//!    header was written).
+//! Both candidate repairs (fixes/C25-…, fixes/C27-…) are verified by the same run with the exclusions off.
 use crate::util::*;
 use arrow::datatypes::{DataType, Schema};
 use datafusion::common::config::{CsvOptions, JsonOptions, TableParquetOptions};
